@@ -118,19 +118,35 @@ def step_definitions(plan):
                 cid = "s%s" % uid
                 plan.registered_cleanups.append(cid)
                 context.add_cleanup(make_cleanup(plan, cid, cl == "raise"))
+            emit = info.get("emit")
+            if emit:
+                import logging as _logging
+                import sys as _sys
+                if emit.get("stdout") is not None:
+                    _sys.stdout.write(emit["stdout"])
+                if emit.get("stderr") is not None:
+                    _sys.stderr.write(emit["stderr"])
+                if emit.get("log") is not None:
+                    _logging.getLogger(emit.get("logger") or "vf").log(
+                        int(emit.get("level") or _logging.WARNING), emit["log"])
         for obs in plan.observers:
             obs("step", uid, context, info)
+
+    def message(uid, default):
+        info = plan.step_info.get(uid) or {}
+        emit = info.get("emit") or {}
+        return emit["msg"] if emit.get("msg") is not None else default
 
     def do_pass(context, uid):
         enter(context, uid)
 
     def do_fail(context, uid):
         enter(context, uid)
-        assert False, "step %s fails" % uid
+        assert False, message(uid, "step %s fails" % uid)
 
     def do_raise(context, uid):
         enter(context, uid)
-        raise RuntimeError("step %s raises" % uid)
+        raise RuntimeError(message(uid, "step %s raises" % uid))
 
     def do_pending(context, uid):
         enter(context, uid)
@@ -188,6 +204,15 @@ def step_definitions(plan):
     for phrase, func in table:
         defs.append((u"step {uid:w} %s" % phrase, func))
     defs.append((u"step {uid:w} misconverts {n:Bad}", do_convert))
+
+    # -- variants with a free-text tail (hostile characters in step names)
+    def with_tail(func):
+        def step_with_tail(context, uid, tail):
+            func(context, uid)
+        step_with_tail.__name__ = func.__name__ + "_with_tail"
+        return step_with_tail
+    for phrase, func in (("passes", do_pass), ("fails", do_fail), ("raises", do_raise)):
+        defs.append((u"step {uid:w} %s with {tail}" % phrase, with_tail(func)))
 
     # -- async twins
     def make_async(func):
